@@ -715,3 +715,44 @@ Proof.
   intros F guard r Haf Hfs Hn Hw. split; auto. intros data off res off' Hoff H.
   eapply find_shortcut_plain_partial; eauto.
 Qed.
+
+Theorem find_ok_shortcuts : forall F guard r,
+  assertion_free (r_prog r) = true -> facts_sound r -> 2 <= r_ncap r ->
+  (f_min (r_facts r) = f_max (r_facts r) -> (f_max (r_facts r) < MAXU)%N) ->
+  find_ok F guard r.
+Proof.
+  intros F guard r Haf Hfs Hn Hw. split; auto. intros data off res off' Hoff H.
+  eapply find_shortcut_plain; eauto.
+Qed.
+
+(* an expression as finalize() prepares it (after the fixes): facts from Prog.Prefix, AcceptedLength, ConstantSuffix *)
+Definition prepared (r : rx) : Prop :=
+  wf (r_prog r) = true /\ 2 <= r_ncap r /\
+  (f_min (r_facts r) = f_max (r_facts r) -> (f_max (r_facts r) < MAXU)%N) /\
+  (context_sensitive r = true \/
+   exists P compl, prog_prefix (r_prog r) = (P, compl) /\ f_prefix (r_facts r) = P /\
+     if compl
+     then f_suffix (r_facts r) = P /\ f_min (r_facts r) = len P /\ f_max (r_facts r) = len P
+     else accepted_length_cached (r_prog r) = Some (f_min (r_facts r), f_max (r_facts r)) /\
+          constant_suffix (r_prog r) = Some (f_suffix (r_facts r))).
+
+Theorem find_ok_prepared : forall F r, prepared r -> find_ok F true r.
+Proof.
+  intros F r [Hwf [Hn [Hfin [Hc | [P [compl [Hp [EP Hf]]]]]]]].
+  - apply find_ok_guarded; auto.
+  - destruct (context_sensitive r) eqn:Ec; [apply find_ok_guarded; auto|].
+    apply find_ok_shortcuts; auto.
+    + unfold context_sensitive in Ec. apply negb_false_iff in Ec. exact Ec.
+    + eapply facts_sound_model; eauto.
+Qed.
+
+Theorem filter_is_plain_scan_prepared : forall F tbl cn ors st,
+  Forall prepared tbl ->
+  (forall cs c e, In cs ors -> In c cs -> In e (c_elems c) -> e_rx e < length tbl) ->
+  stream_selected F true tbl cn ors st = stream_spec F tbl cn ors st.
+Proof.
+  intros F tbl cn ors st Hp Hidx. apply stream_selected_spec. intros cs c Hcs Hc e He.
+  specialize (Hidx cs c e Hcs Hc He). destruct (nth_error tbl (e_rx e)) as [r|] eqn:Er.
+  - exists r. split; auto. apply find_ok_prepared. rewrite Forall_forall in Hp. apply Hp. eapply nth_error_In; eauto.
+  - apply nth_error_None in Er. lia.
+Qed.
